@@ -103,8 +103,11 @@ type caseSpec struct {
 	// to the state a plot with one-pair windows leaves when it is interrupted NearEnd pairs before the end of pass B:
 	// checkpoint = half-NearEnd, nothing written behind it. Reaching that state by plotting costs tens of thousands of
 	// one-pair windows; what follows (resume with one-pair windows, stop a pair or two later) runs for real.
-	NearEnd int  `json:"near_end_pairs,omitempty"`
-	Legacy  bool `json:"legacy"` // after the interruption the pass-A header is rewritten to what builds before the fix recorded (window start + 1)
+	NearEnd int `json:"near_end_pairs,omitempty"`
+	// LoseA: after run 0 (a graceful stop inside pass B) the map-A file disappears (an operator tidying up "temporary"
+	// files, an interrupted Delete): the space must not come back as plotted; plotting it again must end with the table
+	LoseA  bool `json:"map_a_file_lost,omitempty"`
+	Legacy bool `json:"legacy"` // after the interruption the pass-A header is rewritten to what builds before the fix recorded (window start + 1)
 }
 
 func simWindowsA(vol uint64, rs int, cap uint64) int {
@@ -400,6 +403,24 @@ func buildCases(seed int64, thorough bool) []caseSpec {
 			in = &intr{Kind: kind, Point: "plot.A.checkpointed", Occ: 1 + r.Intn(nA)}
 		}
 		add(caseSpec{Family: "legacy", Legacy: true, BL: bl, Key: r.Intn(nKeys), Runs: []runSpec{rsOf(before, in), rsOf(pickOther(r, cfgs, &before, false), nil)}})
+	}
+	// family "lost-map-A": pass B is stopped after some windows, then the map-A file is gone when the space is reopened
+	nLA := 4
+	if thorough {
+		nLA = 40
+	}
+	for i := 0; i < nLA; i++ {
+		r := root.Derive("lost-map-a", i)
+		bl := bls[i%len(bls)]
+		cfgs := windowCfgs(bl, r)
+		c := pickOther(r, cfgs, nil, true)
+		_, nB := windowsOf(bl, c)
+		occ := 1
+		if nB > 2 {
+			occ = 1 + r.Intn(nB-1)
+		}
+		add(caseSpec{Family: "lost-map-A", LoseA: true, BL: bl, Key: r.Intn(nKeys), Runs: []runSpec{
+			rsOf(c, &intr{Kind: "stop", Point: "plot.B.checkpointed", Occ: occ}), rsOf(pickOther(r, cfgs, &c, false), nil)}})
 	}
 	// family "write-fault": one write to the plot files fails with EIO (transient); whatever the run then reports, the
 	// space must not come out as plotted with a table that differs from the reference, and a later run without faults
@@ -1114,6 +1135,18 @@ func execCase(cx *ctx, cs *caseSpec) {
 			violate("plotting-process-died", "-", nil, map[string]interface{}{"exit_code": res.ExitCode, "signal": res.Signal, "fatal": vh.ScanFatal(outFile, 25)})
 		}
 
+		// lost-map-A family: the map-A file is gone before anybody looks at the space again
+		if cs.LoseA && k == 0 {
+			pathA, _ := mapPaths(plotDir, int64(cs.Key), pub, bl)
+			if outcome != "stopped" || os.Remove(pathA) != nil {
+				run.Drop("lost-map-A: the first run was not stopped inside pass B with its map-A file in place")
+				run.Case(cs.hash(), false)
+				return
+			}
+			step["map_a_file_removed_by_harness"] = true
+			run.Count("map_a_files_removed_under_an_unfinished_table", 1)
+		}
+
 		// near-end family: cut the complete table back to "interrupted NearEnd pairs before the end of pass B"
 		if cs.NearEnd > 0 && k == 0 {
 			_, pathB := mapPaths(plotDir, int64(cs.Key), pub, bl)
@@ -1206,6 +1239,11 @@ func execCase(cx *ctx, cs *caseSpec) {
 			writeFaulted = true
 		}
 		for _, p := range probs {
+			if cs.LoseA && k == 0 && p.Kind == "reopen-fails-after-interruption" {
+				// without its map-A file an unfinished space does not open: the callers then create it afresh (next run)
+				run.Count("observed:unfinished_space_without_map_a_does_not_open(expected)", 1)
+				continue
+			}
 			if writeFaulted && p.Kind != "reports-plotted-with-incomplete-table" && p.Kind != "checkpoint-ahead-of-written-data" && p.Kind != "resumed-table-differs" && p.Kind != "plotted-table-differs" {
 				run.Count("observed:after_injected_write_error:"+p.Kind+"(not judged)", 1)
 				continue
